@@ -9,6 +9,8 @@ from .facts import VERIF, AnalysisBroken
 from . import expr as X
 
 KNOWN_FILE = os.path.join(VERIF, "known_findings.json")
+# mutation sweeps analyse a scratch copy (LA_REPO) and must not overwrite the evidence of the real tree
+EVDIR = os.environ.get("LA_EVIDENCE_DIR") or os.path.join(VERIF, "evidence")
 
 
 def canon(fn, n, depth=0):
@@ -143,13 +145,13 @@ class Check:
         for name, floor in self.floors.items():
             if self.counts.get(name, 0) < floor:
                 broken.append("instance count %s=%s below its confirmed floor %s" % (name, self.counts.get(name, 0), floor))
-        os.makedirs(os.path.join(VERIF, "evidence", "replay"), exist_ok=True)
+        os.makedirs(os.path.join(EVDIR, "replay"), exist_ok=True)
         for o in known_hits:
             print("KNOWN-FINDING: property=%s %s %s in %s [%s] %s" % (self.prop, o.rule, o.site, o.function, o.loc,
                                                                    o.known.get("what", "")))
         for o in violations:
             h = hashlib.sha1(("%s|%s|%s|%s" % (self.prop, o.rule, o.function, o.site)).encode()).hexdigest()[:12]
-            path = os.path.join(VERIF, "evidence", "replay", "%s_%s.json" % (self.prop, h))
+            path = os.path.join(EVDIR, "replay", "%s_%s.json" % (self.prop, h))
             with open(path, "w") as fh:
                 json.dump({"property": self.prop, "rule": o.rule, "rule_text": self.rules.get(o.rule, ""),
                            "function": o.function, "site": o.site, "loc": o.loc, "detail": o.detail}, fh, indent=1)
@@ -205,7 +207,7 @@ class Check:
             "wall_s": round(time.time() - self.t0, 3),
             "violations": len(violations),
         }
-        with open(os.path.join(VERIF, "evidence", "%s.json" % self.prop), "w") as fh:
+        with open(os.path.join(EVDIR, "%s.json" % self.prop), "w") as fh:
             json.dump(ev, fh, indent=1)
         print("%s: %d obligations, %d discharged, %d known findings, %d violations (%.1fs)" % (
             self.prop, n_ob, n_ok, len(known_hits), len(violations), time.time() - self.t0))
